@@ -158,6 +158,61 @@ def projection_observations(prg, inputs):
     return ret
 
 
+def duplication_observations(prg, inputs):
+    """per factored literal set: (first rule that uses it [before], canonical aux rule, that rule [after], context)"""
+    from ngo.literal_duplication import LiteralDuplicationTranslator
+    try:
+        before = list(prg)
+        before_ser = {}
+        for s in before:
+            if s.ast_type == ASTType.Rule:
+                try:
+                    before_ser[(s.location.begin.line, s.location.begin.column, str(s.head))] = s
+                except Exception:  # noqa
+                    pass
+        before_strs = {str(s) for s in before}
+        after = LiteralDuplicationTranslator(prg, inputs).execute(prg)
+    except Exception:  # noqa
+        return [], 0
+    aux_rules = [s for s in after if s.ast_type == ASTType.Rule and str(s) not in before_strs and plain_head_pred(s)
+                 and plain_head_pred(s)[0].startswith("__aux_")]
+    obs, other = [], 0
+    for a in aux_rules:
+        name = a.head.atom.symbol.name
+        users = [s for s in after if s.ast_type == ASTType.Rule and s is not a and s.body
+                 and s.body[-1].ast_type == ASTType.Literal and s.body[-1].atom.ast_type == ASTType.SymbolicAtom
+                 and s.body[-1].atom.symbol.name == name]
+        done = False
+        for u in users:
+            o = before_ser.get((u.location.begin.line, u.location.begin.column, str(u.head)))
+            if o is None or any(("__aux_" in str(l)) for l in list(o.body) + list(u.body[:-1])):
+                continue   # nested factoring / a rule rewritten twice: not the shape of the theorem
+            try:
+                tr = _Apart()
+                used = set()
+                body2 = [tr(l) for l in o.body]
+
+                def pick(lit):
+                    for i, l in enumerate(o.body):
+                        if i not in used and l == lit:
+                            used.add(i)
+                            return body2[i]
+                    raise KeyError
+                rest2 = [pick(l) for l in u.body[:-1]]
+                o2 = o.update(body=body2)
+                u2 = u.update(body=rest2 + [u.body[-1]])
+                # the context of the FIRST place of use: the source program without that rule (nobody mentions aux yet)
+                ctx = [s for s in before if s is not o]
+                obs.append((ser.stm(o2), ser.stm(a), ser.stm(u2), ser.prog(ctx)))
+                done = True
+                break
+            except Exception:  # noqa
+                continue
+        if not done:
+            other += 1
+    return obs, other
+
+
 def ser_try(s):
     try:
         return ser.stm(s)
@@ -238,8 +293,8 @@ def leanio_show(x) -> str:
 
 def make_texts(rng, n_gen, corpus_limit=None):
     H = corpus.harvest()
-    pref = [x for x in H if x[0] in ("symmetry", "unused", "regression", "projection")]
-    rest = [x for x in H if x[0] not in ("symmetry", "unused", "regression", "projection")]
+    pref = [x for x in H if x[0] in ("symmetry", "unused", "regression", "projection", "literal_duplication")]
+    rest = [x for x in H if x[0] not in ("symmetry", "unused", "regression", "projection", "literal_duplication")]
     if corpus_limit is not None:
         rest = rng.sample(rest, min(len(rest), corpus_limit))
         pref = rng.sample(pref, min(len(pref), 2 * corpus_limit))
@@ -250,8 +305,10 @@ def make_texts(rng, n_gen, corpus_limit=None):
             texts.append(("tgen:symmetry", tgen.gen_symmetry(rng)))
         elif r < 0.5:
             texts.append(("tgen:unused", tgen.gen_unused(rng)))
-        elif r < 0.75:
+        elif r < 0.65:
             texts.append(("tgen:projection", tgen.gen_projection(rng)))
+        elif r < 0.8:
+            texts.append(("tgen:duplication", tgen.gen_duplication(rng)))
         elif r < 0.85:
             texts.append(("mutated", gen.mutate(rng, rng.choice(pref or H)[1])))
         else:
@@ -289,6 +346,11 @@ def run(rng, n_gen, corpus_limit=None) -> dict:
         for before, aux, upd, ctxp in projection_observations(_preprocess(_parse(text)), inputs):
             reqs.append(f'(sem_split_cond {before} {aux} {upd} {ctxp})')
             meta.append(("projection", text, (aux, upd), 1))
+        dobs, dother = duplication_observations(_preprocess(_parse(text)), inputs)
+        hist["duplication: factored sets without a first place of use in the shape of the theorem"] += dother
+        for before, aux, upd, ctxp in dobs:
+            reqs.append(f'(sem_dup_cond {before} {aux} {upd} {ctxp})')
+            meta.append(("duplication", text, (aux, upd), 1))
         sobs, other = symmetry_observations(_preprocess(_parse(text)), inputs)
         hist["symmetry: rules rewritten in another shape (count / aux / several literals)"] += other
         for rtext, x, y, others in sobs:
@@ -316,17 +378,21 @@ def run(rng, n_gen, corpus_limit=None) -> dict:
             hist[f"{kind}: unsupported by the reader"] += 1
             continue
         nontrivial += 1
-        if kind == "projection":
+        if kind in ("projection", "duplication"):
             a = good[0]
-            same = (leanio_show(a[3]), leanio_show(a[4])) == what
-            flags = [str(a[1]) == "1", str(a[2]) == "1", same]
+            if kind == "projection":
+                same = (leanio_show(a[3]), leanio_show(a[4])) == what
+                flags = [str(a[1]) == "1", str(a[2]) == "1", same]
+            else:
+                same = (leanio_show(a[4]), leanio_show(a[5])) == what
+                flags = [str(a[1]) == "1", str(a[2]) == "1", str(a[3]) == "1", same]
             if not same:
-                mismatches.append({"op": "sem_split_cond", "program": text, "impl": str(what)[:400],
+                mismatches.append({"op": f"sem_{kind}_cond", "program": text, "impl": str(what)[:400],
                                    "model": (leanio_show(a[3]) + " " + leanio_show(a[4]))[:400]})
             if all(flags):
-                hist["projection: side condition of the theorem holds"] += 1
+                hist[f"{kind}: side condition of the theorem holds"] += 1
             else:
-                hist[f"projection: side condition does NOT hold {tuple(int(f) for f in flags)}"] += 1
+                hist[f"{kind}: side condition does NOT hold {tuple(int(f) for f in flags)}"] += 1
                 outside.append(text)
             continue
         flagsets = [[str(x) == "1" for x in a[1:]] for a in good]
